@@ -127,7 +127,7 @@ def gen_core(rng, **over):
     return sc
 
 
-def gen_chain(rng, p_timeout=0.5, p_await=0.8, p_parallel=0.0, nb=(1, 2), maxh=(50, 50, None, 3), p_unrelated=0.3, p_raise=0.05, min_depth=2, **_):
+def gen_chain(rng, p_timeout=0.5, p_await=0.8, p_parallel=0.0, nb=(1, 2), maxh=(50, 50, None, 3), p_unrelated=0.3, p_raise=0.05, min_depth=2, p_selfparent=0.0, **_):
     """nested chains A -> B -> C -> D: each level's handler dispatches the next level (to any bus) and mostly
     awaits it; every level may have a second handler; timeouts on random levels (then serial buses only)"""
     n = rng.randint(*nb)
@@ -138,6 +138,8 @@ def gen_chain(rng, p_timeout=0.5, p_await=0.8, p_parallel=0.0, nb=(1, 2), maxh=(
     depth = rng.randint(min_depth, 4)
     for t in order:
         sc['types'][t] = {'timeout': rng.choice(TIMEOUTS) if (with_to and rng.random() < 0.5) else None}
+    if with_to and rng.random() < p_selfparent:
+        sc['types']['A']['selfparent'] = True      # the root event names itself as its parent (client-supplied cycle)
     home = {t: rng.randrange(n) for t in order}
     for li, t in enumerate(order[:depth]):
         last = li == depth - 1
